@@ -193,6 +193,20 @@ func (o *OuterCancel) RLock(ctx context.Context) (context.Context, context.Cance
 	select {
 	case <-o.closeCh:
 		return nil, nil, errLockClosed
+	case <-ctx.Done():
+		// The request is queued, and Run may be busy with an earlier one for as long
+		// as a writer holds the lock: stop waiting now, and hand back the hold if
+		// the request is granted after all.
+		go func() {
+			select {
+			case resp := <-h.respCh:
+				if resp.cancel != nil {
+					resp.cancel()
+				}
+			case <-o.closeCh:
+			}
+		}()
+		return nil, nil, ctx.Err()
 	case resp := <-h.respCh:
 		return resp.rctx, resp.cancel, resp.err
 	}
